@@ -193,7 +193,32 @@ def playback(h, crate_dir, timeout=600):
     m = re.search(r"```\n(.*?)```", out, re.S)
     if not m:
         m = re.search(r"(#\[test\]\s*fn kani_concrete_playback.*?\n\})", out, re.S)
-    return m.group(1) if m else None
+    if not m:
+        return None
+    test = m.group(1)
+    # replay the counterexample natively against the (injected) real code
+    replay_out = None
+    rel = h.get("_inject_file")
+    mt = re.search(r"fn (kani_concrete_playback_\w+)", test)
+    if rel and mt:
+        fp = os.path.join(SRC, rel)
+        with open(fp) as f:
+            src = f.read()
+        body = src.rstrip()
+        if body.endswith("}"):
+            with open(fp, "w") as f:
+                f.write(body[:-1] + "\n" + test + "\n}\n")
+            try:
+                q = subprocess.run(["cargo", "kani", "playback", "-Z", "concrete-playback", "--", mt.group(1)],
+                                   cwd=crate_dir, env=_env(), capture_output=True, text=True, timeout=timeout)
+                tail = (q.stdout + q.stderr)
+                keep = [ln for ln in tail.split("\n") if re.search(r"panicked|test result|^test |assertion|FAILED|error", ln)]
+                replay_out = "\n".join(keep[-25:])
+            except subprocess.TimeoutExpired:
+                replay_out = "playback timed out"
+            with open(fp, "w") as f:
+                f.write(src)
+    return {"test": test, "native_replay": replay_out}
 
 
 def setup(repo):
@@ -228,7 +253,9 @@ def run_units(kunits, repo, workdir, tier, prop):
         crate_dir = os.path.join(SRC, "bitar")
         jobs = []
         for name, u in kunits:
+            inj_files = list(parse_harness_file(os.path.join(ROOT, u["file"]))[0].keys())
             for h in u["harnesses"]:
+                h["_inject_file"] = inj_files[0] if inj_files else None
                 if h.get("thorough_only") and tier != "thorough":
                     continue
                 jobs.append((name, u, h))
@@ -270,12 +297,14 @@ def run_units(kunits, repo, workdir, tier, prop):
                     r["reason"] = "%s: %s" % (h["name"], hr["reason"])
                     r.setdefault("diagnostics", []).append(hr["out_tail"][-1500:])
                 elif hr["status"] == "violated":
-                    test = playback(h, crate_dir) if h.get("playback", True) else None
+                    pb = playback(h, crate_dir) if h.get("playback", True) else None
                     for fc in hr["failed_checks"][:3]:
                         r["failed"].append({"function": h["name"], "kind": "kani check failed: " + fc["description"],
                                             "line": None, "col": None,
                                             "text": "%s at %s\n\n%s" % (fc["description"], fc["location"], hr["out_tail"][-2500:]),
-                                            "witness": test, "props": h.get("properties")})
+                                            "witness": pb["test"] if pb else None,
+                                            "native_replay": pb["native_replay"] if pb else None,
+                                            "cmd": hr["cmd"], "props": h.get("properties")})
             if r["failed"] and r["status"] == "ok":
                 r["status"] = "violated"
             results.append(r)
